@@ -110,6 +110,12 @@ pub fn check_c02(tier: Tier, seed: u64) -> PropReport {
     let n = hist_cases(tier, 5000, 30_000);
     let o = drive(&e, "C02", tier, n, seed);
     rep.push(e.name, o);
+    if tier == Tier::Thorough && fuzz_enabled() {
+        // engine Z: coverage-guided campaign over serialised histories (all pool monitors in the
+        // target), crash inputs re-judged by this property's engine
+        let o = fuzz_stage(&e, "C02", "pool_history", 30_000, seed);
+        rep.push("fuzz:pool_history", o);
+    }
     let e2 = SsMint;
     let n2 = hist_cases(tier, 200_000, 5_000_000);
     let o = drive(&e2, "C02", tier, n2, seed);
@@ -137,6 +143,12 @@ pub fn check_c03(tier: Tier, seed: u64) -> PropReport {
     let n = hist_cases(tier, 5000, 30_000);
     let o = drive(&e, "C03", tier, n, seed);
     rep.push(e.name, o);
+    if tier == Tier::Thorough && fuzz_enabled() {
+        // engine Z: coverage-guided campaign over serialised histories (all pool monitors in the
+        // target), crash inputs re-judged by this property's engine
+        let o = fuzz_stage(&e, "C03", "pool_history", 30_000, seed);
+        rep.push("fuzz:pool_history", o);
+    }
     let n2 = hist_cases(tier, 200_000, 5_000_000);
     let o = drive(&CpSwap, "C03", tier, n2, seed);
     rep.push(CpSwap.name(), o);
@@ -165,6 +177,12 @@ pub fn check_c04(tier: Tier, seed: u64) -> PropReport {
     let n = hist_cases(tier, 5000, 30_000);
     let o = drive(&e, "C04", tier, n, seed);
     rep.push(e.name, o);
+    if tier == Tier::Thorough && fuzz_enabled() {
+        // engine Z: coverage-guided campaign over serialised histories (all pool monitors in the
+        // target), crash inputs re-judged by this property's engine
+        let o = fuzz_stage(&e, "C04", "pool_history", 30_000, seed);
+        rep.push("fuzz:pool_history", o);
+    }
     let n2 = hist_cases(tier, 100_000, 3_000_000);
     let o = drive(&CpSwap, "C04", tier, n2, seed ^ 0x44);
     rep.push(CpSwap.name(), o);
@@ -187,6 +205,12 @@ pub fn check_c12(tier: Tier, seed: u64) -> PropReport {
     let n = hist_cases(tier, 5000, 30_000);
     let o = drive(&e, "C12", tier, n, seed);
     rep.push(e.name, o);
+    if tier == Tier::Thorough && fuzz_enabled() {
+        // engine Z: coverage-guided campaign over serialised histories (all pool monitors in the
+        // target), crash inputs re-judged by this property's engine
+        let o = fuzz_stage(&e, "C12", "pool_history", 30_000, seed);
+        rep.push("fuzz:pool_history", o);
+    }
     let n2 = hist_cases(tier, 200_000, 10_000_000);
     let o = drive(&CpReverse, "C12", tier, n2, seed);
     rep.push(CpReverse.name(), o);
